@@ -149,6 +149,16 @@ def r19_2(cx):
         cx.check(has_ctime and not bad and len(mds) == 1 and None not in mds, 'value:' + short(cs.callee), fn, cs.loc(),
                  'base time = %s' % show(val)[:200], fail_detail='the base time handed to the cell is not purely ctime of the gated metadata: extra=%s metadata calls=%s expr=%s'
                  % (bad, sorted(map(str, mds)), show(val)[:200]))
+        # ... in milliseconds: seconds * 1000 + nanoseconds / 1_000_000, each constant on the right quantity
+        muls = [n for n in val.walk() if n.kind == 'call' and n.op.endswith('saturating_mul')]
+        divs = [n for n in val.walk() if n.kind == 'binop' and n.op == 'Div']
+        def _is(e, what):
+            return any(c.op.endswith('MetadataExt>::' + what) for c in e.calls())
+        uok = len(muls) == 1 and len(divs) == 1 and \
+            _is(muls[0].args[0], 'ctime') and not _is(muls[0].args[0], 'ctime_nsec') and muls[0].args[1].is_const_int(1000) and \
+            _is(divs[0].a, 'ctime_nsec') and not _is(divs[0].a, 'ctime') and divs[0].b.is_const_int(1000000)
+        cx.check(uok, 'units:' + short(cs.callee), fn, cs.loc(), 'milliseconds = ctime() * 1000 + ctime_nsec() / 1_000_000',
+                 fail_detail='the base time is not the ctime in milliseconds (seconds * 1000 + nanoseconds / 1_000_000): %s' % show(val)[:200])
         vok = is_call(vch, 'VouchingParameters::vouch') and show(vch.args[1].strip()) == show(val)
         cx.check(vok, 'voucher:' + short(cs.callee), fn, cs.loc(), 'voucher = VOUCH_PARAMS.vouch(that same value)',
                  fail_detail='the voucher is not vouch() of the value being stored: %s' % show(vch)[:200])
